@@ -71,6 +71,10 @@ func remoteFn(c vkit.Call) vkit.Reply {
 		}
 
 		rep.Header["Cache-Control"] = "max-age=60"
+
+		if c.Method == "GET" {
+			rep.Header["Vary"] = "X-Tenant, Cookie, X-From-Output, X-Values, X-Static-0"
+		}
 	}
 
 	return rep
@@ -160,7 +164,8 @@ type caseSpec struct {
 	// HTTPCache: the endpoint has its HTTP cache enabled and the remote side declares its answers fresh; the mechanism's
 	// own cache is off. The requests to the endpoint are POST requests, the answer to one of which must never be taken for
 	// the answer to another one (RFC 7234, section 4.4; RFC 7231, section 4.3.3)
-	HTTPCache bool
+	HTTPCache    bool
+	HTTPCacheGET bool
 }
 
 func (c caseSpec) String() string {
@@ -260,6 +265,7 @@ func checkCase(t *rapid.T, c caseSpec, excl map[string]bool) {
 	remoteFresh = c.HTTPCache
 	remote.Set(remoteFn)
 	vkit.S.LabelIf(c.HTTPCache, "http_cache_of_the_endpoint_only")
+	vkit.S.LabelIf(c.HTTPCacheGET, "http_cache_of_the_endpoint_only.GET")
 
 	// cache on: A (repeated), then B
 	wOn, _, err := buildWorld(c, true)
@@ -404,6 +410,13 @@ func genSubjectHandlerCase(t *rapid.T, family string) caseSpec {
 		c.HTTPCache = true
 		pc["cache_ttl"] = "0s"
 		pc["endpoint"].(map[string]any)["http_cache"] = map[string]any{"enabled": true, "default_ttl": "5m"}
+
+		// the endpoint may as well be asked with GET; the remote side then names the request headers its answer depends
+		// on (Vary), as a server has to whose answers are meant to be cached (RFC 7234, section 4.1)
+		if rapid.Bool().Draw(t, "endpointAskedWithGET") {
+			pc["endpoint"].(map[string]any)["method"] = "GET"
+			c.HTTPCacheGET = true
+		}
 	}
 
 	if family == "remote_authorizer" {
